@@ -44,13 +44,24 @@ macro_rules
   | `(tactic| frame) => `(tactic|
     first
     | frame_let
-    | exact Frame.pure _ | exact Frame.fail _ | exact Frame.cur | exact Frame.peek | exact Frame.peek2
-    | exact Frame.peek3 | exact Frame.peek4 | exact Frame.nextToken | exact Frame.curIs _
-    | exact Frame.peekIs _ | exact Frame.peek2Is _ | exact Frame.expectPeek _ | exact Frame.expectPeekErr _
-    | exact Frame.tryReplace _ | exact Frame.get
-    | apply_assumption -exfalso -symm
-    | (refine Frame.bind ?_ (fun _ => ?_) <;> frame)
     | (lift_lets; frame_let)
+    | with_reducible exact Frame.pure _ 
+    | with_reducible exact Frame.fail _ 
+    | with_reducible exact Frame.cur 
+    | with_reducible exact Frame.peek 
+    | with_reducible exact Frame.peek2
+    | with_reducible exact Frame.peek3 
+    | with_reducible exact Frame.peek4 
+    | with_reducible exact Frame.nextToken 
+    | with_reducible exact Frame.curIs _
+    | with_reducible exact Frame.peekIs _ 
+    | with_reducible exact Frame.peek2Is _ 
+    | with_reducible exact Frame.expectPeek _ 
+    | with_reducible exact Frame.expectPeekErr _
+    | with_reducible exact Frame.tryReplace _ 
+    | with_reducible exact Frame.get
+    | with_reducible apply_assumption -exfalso -symm
+    | (with_reducible refine Frame.bind ?_ (fun _ => ?_)) <;> frame
     | (split <;> frame))
 
 set_option maxRecDepth 4000 in
